@@ -159,7 +159,7 @@ CLAIMED = {
                    "symbol that the edge words do not reproduce or whose permutations violate a relator), with a "
                    "satisfiability guard against vacuity; models re-evaluated exactly against a fresh native run"),
         text=("PARTIAL. For every 2D symbol the D-symbol generator yields on D-sets of at most 4 (thorough: 5) chambers — "
-              "236 (318) symbols — the real fundamental_group is run and its relators, generator edges and edge words are "
+              "236 (318) symbols, those with at most 3 (4) chambers also in every renumbering of their chambers — the real fundamental_group is run and its relators, generator edges and edge words are "
               "turned into constants. For every degree s <= 3 the solver decides, over ALL tuples of symbolic "
               "permutations and ALL symbolic sheet maps, that the permutation representations of the presentation are "
               "exactly the s-sheeted coverings of the symbol (sheets transported along the spanning tree), related "
